@@ -73,6 +73,8 @@ class ParserState:
             language
             and fn in self._inherited
             and language != self.langs[fn]
+            # C and C++ files are read by the same line source.
+            and {language, self.langs[fn]} != {"c", "c++"}
             and (fn, language) not in self._alternates
         ):
             # A file that takes its language from the file including it is
